@@ -5,6 +5,7 @@
   runs the node's own visor.CheckDatabase on a copy of the real database.)
 -/
 import Sky.Ledger.Run
+import Sky.Ledger.Progress
 namespace Sky.Props.C04
 open Sky Sky.Ledger
 
@@ -21,6 +22,56 @@ theorem append_only_if {s s' : State} {b g : Block} (hg : s.chain.head? = some g
   obtain ⟨hgen, hvh, _, hux⟩ := processBlock_ok hg hpb
   obtain ⟨head, h1, h2, h3, h4, h5⟩ := verifyBlockHeader_ok hvh
   exact ⟨hsig, ⟨head, h1, h2, h3, h4⟩, h5, hux, hgen, hc⟩
+
+/-- IF direction (progress): in every state a history can reach (`Strong`, see `Sky.Ledger.strong_after_run`), a
+publisher-signed block that passes `Blockchain.processBlock`, whose header hash is not yet in the block store and
+whose parent reference is not the null hash IS appended — no later storage step (unspent-set update with the
+address-index guards, pool purge, history parsing) can refuse it.  With `append_only_if`: a block is appended
+exactly when it is signed, passes the checks of `processBlock` and is new to the store. -/
+theorem append_iff {s : State} {b g last : Block} (hst : Strong s) (hwf : ∀ t ∈ b.txns, WfSound t)
+    (hinj : HashInj b.txns) (hg : s.chain.head? = some g) (hl : s.chain.getLast? = some last) :
+    (∃ s', execSigned s b = .ok s') ↔
+      (b.sig = true ∧ processBlock s b = .ok () ∧ (s.chain.any (·.hh == b.hh)) = false ∧
+        (decide (b.seq > 0) && (b.prev == "0000000000000000")) = false) := by
+  constructor
+  · rintro ⟨s', h⟩
+    obtain ⟨hsig, hpb, hnew, _⟩ := execSigned_ok h
+    refine ⟨hsig, hpb, hnew, ?_⟩
+    unfold execSigned at h
+    simp only [bind, Except.bind] at h
+    split at h
+    · cases h
+    · split at h
+      · cases h
+      · split at h
+        · cases h
+        · split at h
+          · cases h
+          · rename_i hp; simpa using hp
+  · rintro ⟨hsig, hpb, hnew, hprev⟩
+    obtain ⟨_, hvh, _, _⟩ := processBlock_ok hg hpb
+    obtain ⟨head, hhd, hseq, _⟩ := verifyBlockHeader_ok hvh
+    have hpos : decide (b.seq > 0) = true := by simp; omega
+    rw [hpos, Bool.true_and] at hprev
+    exact execSigned_succeeds hst hwf hg hl hsig hpb hnew hprev hinj
+
+/-- non-vacuity of `Strong`: the state right after a genesis block with one output satisfies it -/
+example (cfg : Cfg) (g : Block) (u : Ux) (hseq : g.seq = 0) :
+    Strong { cfg := cfg, chain := [g], unspent := [u], aidx := [(u.addr, [u.id])], aih := some 0,
+             houts := [{ id := u.id, addr := u.addr, coins := u.coins, spent := none }] } := by
+  refine ⟨by simp, ?_, ?_, ?_, by simp [hseq]⟩
+  · intro a id
+    by_cases h : u.addr = a
+    · simp [aidxGet, idsOfAddr, h]
+    · simp [aidxGet, idsOfAddr, h]
+  · intro a
+    by_cases h : u.addr = a
+    · simp [aidxGet, h]
+    · simp [aidxGet, h]
+  · intro v hv
+    simp at hv
+    subst hv
+    simp [idsH]
 
 /-- the stored chain is the old chain plus the SUBMITTED block, bit for bit (no re-linking, no
 re-arbitration): so the stored signature is over the stored header -/
